@@ -99,34 +99,35 @@ theorem closeSend_plain (c : Chan) (h : CInv c) : Plain c (closeSend c) := by
   refine ⟨closeSend_inv c h, ?_, ?_, ?_, ?_, ?_, ?_⟩ <;> simp only [closeSend, R.ok, sendPkt] <;> grind
 
 theorem discardRecv_plain (c : Chan) (h : CInv c) : Plain c (discardRecv c) := by
-  have := h.ow
-  refine ⟨discardRecv_inv c h, ?_, ?_, ?_, ?_, ?_, ?_⟩ <;> simp only [discardRecv, R.ok] <;> grind
+  have how := h.ow
+  have hsends : ∀ a ∈ (if 0 < c.recvBuf then sendPkt c (.adjust c.recvBuf) else []), ∃ rc m, a = Act.send rc m := by
+    intro a; split
+    · exact sendPkt_sends _ _ a
+    · simp
+  refine ⟨discardRecv_inv c h, ?_, ?_, ?_, ?_, ?_, ?_⟩
+  · simp only [discardRecv]; split <;> rfl
+  · simp only [discardRecv]; split <;> exact id
+  · simp only [discardRecv]; split <;> exact fun x => Or.inl x
+  · simp only [discardRecv]; split <;> exact id
+  · simp only [discardRecv]; split <;> exact fun x => Or.inl x
+  · intro e he
+    simp only [discardRecv] at he ⊢
+    split
+    · rename_i hcp
+      simp only [ok_c]
+      cases ho : c.openWaiter with
+      | false => rfl
+      | true => have := (how ho).2.2.2.1; rw [this] at hcp; cases hcp
+    · rename_i hcp
+      rw [if_neg hcp] at he
+      obtain ⟨rc, m, hm⟩ := hsends _ he
+      cases hm
 
 theorem closeSend_sends (c : Chan) : ∀ a ∈ (closeSend c).acts, ∃ rc m, a = Act.send rc m := by
   simp only [closeSend]
   split
   · exact sendPkt_sends _ _
   · simp [R.ok]
-
-theorem flushSendBuf_sends (c : Chan) : ∀ a ∈ (flushSendBuf c).acts, ∃ rc m, a = Act.send rc m := by
-  simp only [flushSendBuf]
-  intro a
-  split
-  · split
-    · intro ha
-      rcases List.mem_append.mp ha with y | y
-      · exact replicate_sends _ _ _ a y
-      · exact sendPkt_sends _ _ a y
-    · intro ha
-      rcases List.mem_append.mp ha with y | y
-      · exact replicate_sends _ _ _ a y
-      · exact closeSend_sends _ a y
-    · exact replicate_sends _ _ _ a
-  · exact replicate_sends _ _ _ a
-
-theorem flushSendBuf_plain (c : Chan) (h : CInv c) : Plain c (flushSendBuf c) :=
-  plain_of_fields (flushSendBuf_inv c h) (flushSendBuf_sends c) (by fields [flushSendBuf, closeSend])
-    (by fields [flushSendBuf, closeSend]) (by fields [flushSendBuf, closeSend]) (by fields [flushSendBuf, closeSend])
 
 /-- `CInv` only depends on the life-cycle fields; buffers, windows and pause flags are free -/
 theorem cinv_congr {c c' : Chan} (h : CInv c)
@@ -137,6 +138,41 @@ theorem cinv_congr {c c' : Chan} (h : CInv c)
     (e14 : c'.recvEofPending = c.recvEofPending) : CInv c' := by
   obtain ⟨h1, h2, h3, h4, h5, h6, h7, h8, h9, h10, h11, h12, h13, h14⟩ := h
   constructor <;> simp only [e1, e2, e3, e4, e5, e6, e7, e8, e9, e10, e11, e12, e13, e14] <;> assumption
+
+/-- restate a summary for a definitionally equal start state -/
+theorem Plain.cast {c c0 : Chan} {r : R} (h : Plain c0 r) (e1 : c0.reg = c.reg) (e2 : c0.openWaiter = c.openWaiter)
+    (e3 : c0.wakeVal = c.wakeVal) (e4 : c0.session = c.session) : Plain c r :=
+  ⟨h.inv, h.reg.trans e1, fun x => e2 ▸ h.ow x, fun x => e3 ▸ h.wv x, fun x => e3 ▸ h.okv x,
+   fun x => e4 ▸ h.sess x, h.sched⟩
+
+theorem pauseResumeWriting_acts (c : Chan) : (pauseResumeWriting c).acts = [] := by
+  simp only [pauseResumeWriting]; (repeat' split) <;> rfl
+
+theorem pauseResumeWriting_plain (c : Chan) (h : CInv c) : Plain c (pauseResumeWriting c) := by
+  refine plain_of_fields (pauseResumeWriting_inv c h) ?_ (by fields [pauseResumeWriting])
+    (by fields [pauseResumeWriting]) (by fields [pauseResumeWriting]) (by fields [pauseResumeWriting])
+  intro a ha
+  rw [pauseResumeWriting_acts] at ha
+  cases ha
+
+theorem flushSendTail_plain (c : Chan) (h : CInv c) : Plain c (flushSendTail c) := by
+  refine plain_of_fields (flushSendTail_inv c h) ?_ (by fields [flushSendTail, closeSend])
+    (by fields [flushSendTail, closeSend]) (by fields [flushSendTail, closeSend]) (by fields [flushSendTail, closeSend])
+  simp only [flushSendTail]
+  intro a
+  split
+  · split
+    · exact sendPkt_sends _ _ a
+    · exact closeSend_sends _ a
+    · simp [R.ok]
+  · simp [R.ok]
+
+theorem flushSendBuf_plain (c : Chan) (h : CInv c) : Plain c (flushSendBuf c) := by
+  unfold flushSendBuf
+  refine plain_andThen (plain_pre _ (replicate_sends _ _ _) ?_) flushSendTail_plain
+  have hi : CInv { c with sendBuf := c.sendBuf - min c.sendBuf c.sendWin, sendWin := c.sendWin - min c.sendBuf c.sendWin } :=
+    cinv_congr h rfl rfl rfl rfl rfl rfl rfl rfl rfl rfl rfl rfl rfl rfl
+  exact (pauseResumeWriting_plain _ hi).cast rfl rfl rfl rfl
 
 theorem writeEof_plain (c : Chan) (h : CInv c) : Plain c (writeEof c) := by
   unfold writeEof
@@ -193,7 +229,7 @@ theorem flushRecvBuf_plain (c : Chan) (h : CInv c) : Plain c (flushRecvBuf c) :=
 theorem acceptData_plain (c : Chan) (h : CInv c) : Plain c (acceptData c) := by
   unfold acceptData
   split
-  · exact plain_refl c h
+  · exact plain_of_fields (r := R.ok _ _) h (sendPkt_sends _ _) rfl rfl rfl rfl
   · split
     · exact plain_of_fields (r := R.ok _) (cinv_congr h rfl rfl rfl rfl rfl rfl rfl rfl rfl rfl rfl rfl rfl rfl)
         (by simp [R.ok]) rfl rfl rfl rfl
@@ -237,18 +273,18 @@ theorem processEof_plain (c : Chan) (h : CInv c) : Plain c (processEof c) := by
     have := flushRecvBuf_plain _ hi
     exact ⟨this.inv, this.reg, this.ow, this.wv, this.okv, this.sess, this.sched⟩
 
-/-- restate a summary for a definitionally equal start state -/
-theorem Plain.cast {c c0 : Chan} {r : R} (h : Plain c0 r) (e1 : c0.reg = c.reg) (e2 : c0.openWaiter = c.openWaiter)
-    (e3 : c0.wakeVal = c.wakeVal) (e4 : c0.session = c.session) : Plain c r :=
-  ⟨h.inv, h.reg.trans e1, fun x => e2 ▸ h.ow x, fun x => e3 ▸ h.wv x, fun x => e3 ▸ h.okv x,
-   fun x => e4 ▸ h.sess x, h.sched⟩
-
 theorem processClose_plain (c : Chan) (h : CInv c) : Plain c (processClose c) := by
   unfold processClose
   split
   · exact plain_fail c h _
   · rename_i hl
-    refine plain_andThen2 (fun x => x.recvSt = c.recvSt) (closeSend_plain c h) (closeSend_recvSt c) ?_
+    refine plain_andThen2 (fun x => x.recvSt = c.recvSt)
+      (plain_andThen2 (fun x => x.recvSt = c.recvSt) (closeSend_plain c h) (closeSend_recvSt c)
+        (fun c1 hc1 _ => pauseResumeWriting_plain c1 hc1)) ?_ ?_
+    · unfold R.andThen
+      split
+      · exact closeSend_recvSt c
+      · exact (pauseResumeWriting_recvSt _).trans (closeSend_recvSt c)
     intro c' hc' hq
     have hi : CInv { c' with recvEofPending := decide (c'.recvSt = .eofPending), recvSt := .closePending } := by
       obtain ⟨h1, h2, h3, h4, h5, h6, h7, h8, h9, h10, h11, h12, h13, h14⟩ := hc'
@@ -366,6 +402,15 @@ theorem appOp_plain (o : AppOp) (c : Chan) (h : CInv c) : Plain c (appOp c o) :=
   | pause => exact pauseReading_plain c h
   | resume => exact resumeReading_plain c h
   | exit => simp only [appOp]; split; exact exit_plain c h; exact plain_refl c h
+  | limits hi lo =>
+    simp only [appOp, setLimits]
+    have hi : CInv { c with hiWater := hi, loWater := lo } :=
+      cinv_congr h rfl rfl rfl rfl rfl rfl rfl rfl rfl rfl rfl rfl rfl rfl
+    exact (pauseResumeWriting_plain _ hi).cast rfl rfl rfl rfl
+  | drain =>
+    simp only [appOp, drain]
+    split <;> exact plain_of_fields (r := R.ok _)
+      (cinv_congr h rfl rfl rfl rfl rfl rfl rfl rfl rfl rfl rfl rfl rfl rfl) (by simp [R.ok]) rfl rfl rfl rfl
 
 /-! ### `create()` and `_finish_open_request` -/
 
@@ -667,8 +712,34 @@ theorem waitClosed_spec (c : Chan) :
 
 /-! ### the resumption of `create()` consumes the stored result and stores no new one -/
 
+theorem andThen_wakeVal (r : R) (f : Chan → R) (h2 : ∀ c, (f c).c.wakeVal = c.wakeVal) :
+    (r.andThen f).c.wakeVal = r.c.wakeVal := by
+  unfold R.andThen; split
+  · rfl
+  · exact h2 _
+
+theorem pauseResumeWriting_wakeVal (c : Chan) : (pauseResumeWriting c).c.wakeVal = c.wakeVal := by
+  fields [pauseResumeWriting]
+
+theorem flushSendTail_wakeVal (c : Chan) : (flushSendTail c).c.wakeVal = c.wakeVal := by
+  fields [flushSendTail, closeSend]
+
+theorem flushSendBuf_wakeVal (c : Chan) : (flushSendBuf c).c.wakeVal = c.wakeVal := by
+  unfold flushSendBuf
+  rw [andThen_wakeVal _ _ flushSendTail_wakeVal, pre_c, pauseResumeWriting_wakeVal]
+
+theorem discardRecv_wakeVal (c : Chan) : (discardRecv c).c.wakeVal = c.wakeVal := by
+  fields [discardRecv]
+
 theorem close_wakeVal (c : Chan) : (close c).c.wakeVal = c.wakeVal := by
-  fields [close, discardRecv, flushSendBuf, closeSend, R.andThen]
+  unfold close
+  rw [andThen_wakeVal]
+  · split
+    · exact flushSendBuf_wakeVal _
+    · rfl
+  · intro c'; split
+    · exact discardRecv_wakeVal c'
+    · rfl
 
 theorem createFail_wakeVal (c : Chan) (n : Nat) : (createFail c n).c.wakeVal = c.wakeVal := by
   unfold createFail; rw [close_wakeVal]
